@@ -17,12 +17,15 @@
 //!                                D <id> <frames> <stack>             `(#%verif-stack-depth)` evaluated next on the engine
 //!                                Q <id> same | <hex of the probe's result>      the fixed probe program, same engine
 //!                              a probe that differs makes the harness continue on a fresh engine (record `N <id>`).
+//!        M <id> <hex>          as T, but the text is written to a file under $C07_MODS and evaluated as a module:
+//!                              `(require "<file>")`
 //!        X <id> <hex>          evaluate, record `V <id> <hex of the values, Display, separated by U+001F>` (or R err/panic)
 //!                              I <id> : the soft time limit passed and the interrupt was requested
 //!                              H <id> : the hard limit passed, the process exits with status 3
 //!                              O <id> <file:line> | <message> : a panic on a thread other than the evaluating one
 //!   c07 builtins <out>         stdin = jobs:
-//!        F <name> <module> <arity> <mode> <start> <end>     apply the built-in to the pool tuples start..end
+//!        F <name> <module> <arity> <mode> <start> <end> [<in-module>]   apply the built-in to the pool tuples start..end
+//!                              (in-module = 1: the applying loop is a procedure of a required module)
 //!                              (arity 0..3; mode 0 = exhaustive (tuple k = digits of k in base n), mode 1 = pairwise for
 //!                              arity 3: (i, j, (i+j) mod n)).  Records:
 //!                                F <name> <arity> <mode> <start> <end>
@@ -399,9 +402,18 @@ fn run_texts(jobs: Vec<String>, t0: Instant) {
                 engine = new_engine();
                 set_controller(&engine);
             }
-            "T" | "X" if f.len() >= 3 => {
+            "T" | "X" | "M" if f.len() >= 3 => {
                 let id = f[1];
-                let text = String::from_utf8_lossy(&unhex(f[2])).into_owned();
+                let mut text = String::from_utf8_lossy(&unhex(f[2])).into_owned();
+                if f[0] == "M" {
+                    // module mode: the text becomes a file and is evaluated as `(require "<file>")`, the way
+                    // `steel file.scm` runs a program (module-level code takes other compiler / JIT paths)
+                    let dir = std::env::var("C07_MODS").unwrap_or_else(|_| "/verif/.build/C07/mods".to_string());
+                    let _ = std::fs::create_dir_all(&dir);
+                    let path = format!("{}/c07m-{}-{}.scm", dir, std::process::id(), id);
+                    let _ = std::fs::write(&path, text.as_bytes());
+                    text = format!("(require \"{}\")", path);
+                }
                 emit(&format!("B {}", id));
                 set_step(&format!("T {}", id), t0);
                 INTERRUPT_WANTED.store(true, Ordering::SeqCst);
@@ -512,13 +524,38 @@ const SWEEP: &str = r#"
       (loop (+ k 1)))))
 "#;
 
+/// the same loop as a procedure of a module (required from a file): module-level procedures are compiled and jit
+/// compiled differently from top-level ones.  Everything it needs is passed in.
+const SWEEP_MODULE: &str = r#"
+(provide c07-sweep-m)
+(define (c07-sweep-m f arity mode start end n p c07-at c07-ok c07-err)
+  (define (at i) (vector-ref p i))
+  (let loop ((k start))
+    (when (< k end)
+      (c07-at k)
+      (with-handler (lambda (e) (c07-err))
+        (begin
+          (cond
+            [(= arity 0) (f)]
+            [(= arity 1) (f (at k))]
+            [(= arity 2) (f (at (quotient k n)) (at (remainder k n)))]
+            [(= mode 1) (let ((i (quotient k n)) (j (remainder k n))) (f (at i) (at j) (at (remainder (+ i j) n))))]
+            [else (f (at (quotient k (* n n))) (at (remainder (quotient k n) n)) (at (remainder k n)))])
+          (c07-ok)))
+      (loop (+ k 1)))))
+"#;
+
 fn make_pool_src() -> String {
     format!("(define (c07-make-pool) (vector {}))", POOL.join("\n "))
 }
 
 fn sweep_engine() -> Engine {
     let mut e = new_engine();
-    for src in [make_pool_src(), SWEEP.to_string()] {
+    let dir = std::env::var("C07_MODS").unwrap_or_else(|_| "/verif/.build/C07/mods".to_string());
+    let _ = std::fs::create_dir_all(&dir);
+    let path = format!("{}/c07sweep-{}.scm", dir, std::process::id());
+    let _ = std::fs::write(&path, SWEEP_MODULE.as_bytes());
+    for src in [make_pool_src(), SWEEP.to_string(), format!("(require \"{}\")", path)] {
         match eval(&mut e, src) {
             Out::Ok(_) => {}
             Out::Err(x) => {
@@ -553,6 +590,7 @@ fn run_builtins(jobs: Vec<String>, t0: Instant) {
         let mode: usize = f[4].parse().unwrap_or(0);
         let mut start: i64 = f[5].parse().unwrap_or(0);
         let end: i64 = f[6].parse().unwrap_or(0);
+        let in_module = f.get(7).map(|x| *x == "1").unwrap_or(false);
         let Some(val) = lookup_builtin(&engine, module, name) else {
             emit(&format!("MISSING {} {}", name, module));
             continue;
@@ -569,7 +607,14 @@ fn run_builtins(jobs: Vec<String>, t0: Instant) {
             set_step(&label, t0);
             CUR_K.store(start - 1, Ordering::SeqCst);
             RUNNING.store(true, Ordering::SeqCst);
-            let src = format!("(c07-sweep c07-f {} {} {} {} {})", arity, mode, start, end, POOL.len());
+            let src = if in_module {
+                format!(
+                    "(c07-sweep-m c07-f {} {} {} {} {} (c07-make-pool) c07-at c07-ok c07-err)",
+                    arity, mode, start, end, POOL.len()
+                )
+            } else {
+                format!("(c07-sweep c07-f {} {} {} {} {})", arity, mode, start, end, POOL.len())
+            };
             let r = eval(&mut engine, src);
             RUNNING.store(false, Ordering::SeqCst);
             let k = CUR_K.load(Ordering::SeqCst);
